@@ -56,7 +56,10 @@ def run_case(seed, tid):
     nticks = min(nticks, 150 * (int(wsm * tps) + 1))        # an event (almost) every tick: keep the JSON arrays of one line short (TLC's Json module is recursive in their length)
     params = parse_args_with_defaults({
         "ticks_per_second": tps, "waiting_seconds_mean": wsm, "num_pipelines": rng.choice([1, 2, 4, 7, 12]), "num_operators": rng.choice([1, 2, 5, 9]),
-        "interactive_prob": ip, "query_prob": qp, "batch_prob": bp, "cpu_io_ratio": rng.choice([0.0, 0.1, 0.5, 0.9, 1.0]), "random_seed": rng.randrange(10**6)})
+        "interactive_prob": ip, "query_prob": qp, "batch_prob": bp, "cpu_io_ratio": rng.choice([0.0, 0.1, 0.5, 0.9, 1.0]), "random_seed": rng.randrange(10**6),
+        # scheduler / executor settings are part of the parameter set the generator is built from; the workload must not depend on them
+        "ram_gb_per_pool": rng.choice([0.5, 8, 32, 256, 1000]), "cpus_per_pool": rng.choice([1, 4, 64]), "num_pools": rng.choice([1, 2, 8]),
+        "scheduler_algo": rng.choice(["naive", "priority", "overbook"]), "multi_operator_containers": rng.random() < 0.5})
     gen = WorkloadGenerator(**params)
     log = []
     gen.rng = RngProxy(gen.rng, log)
